@@ -103,6 +103,19 @@ def main(argv=None):
             traceback.print_exc()
         new_failures = unlisted(ctx.failures)
 
+    # 3b. the anchored source is not the source the model was written against: explore deeper
+    #     even though the ordinary pass found nothing (never a violation by itself)
+    changed_src = core.changed_anchor_files(prop)
+    escalated = False
+    if changed_src and not new_failures and not searched and hasattr(mod, "search") and not os.environ.get("VERIF_NO_ESCALATE"):
+        escalated = True
+        log("[%s] anchored source differs from the fingerprinted tree (%s): running the deeper search as well" % (prop, ", ".join(changed_src)))
+        try:
+            mod.search(ctx)
+        except Exception:
+            traceback.print_exc()
+        new_failures = unlisted(ctx.failures)
+
     # 4. known findings: witnesses replayed on the implementation on every run -----------
     known_lines = []
     for f in open_findings:
@@ -176,6 +189,8 @@ def main(argv=None):
             "spec_failures_on_impl": len(ctx.failures),
             "spec_failures_matching_known_findings": len(ctx.failures) - len(new_failures),
             "known_findings_reproduced": known_lines,
+            "anchored_source_changed": changed_src,
+            "escalated_search": escalated,
             "driver_ops": ctx.drv.calls,
             "notes": ctx.notes,
             **ctx.extra,
